@@ -60,3 +60,63 @@ PROPS["C05"] = {
     "chunk": 400,
 }
 MANIFEST_TEXT["C05"] = {"level": "todo", "note": "todo", "technique": "TLA+ reference grammar vs Pratt model, TLC; replay + trace validation"}
+
+PROPS["C01"] = {
+    "title": "Optimisation never changes a verdict",
+    "models": lambda tier: [],
+    "gens": lambda tier: [{"topic": "opt", "n": q(tier, 600, 12000)}],
+    "rules": ["den", "opt_panic", "match_panic"],
+    "chunk": 300,
+}
+MANIFEST_TEXT["C01"] = {"level": "todo", "note": "todo", "technique": "TLA+ life-cycle spec (TauRule): denotation bound at first observation; traces of all 17 switch states validated by TLC"}
+
+PROPS["C03"] = {
+    "title": "An accepted rule can always be evaluated (no panic after load)",
+    "models": lambda tier: [
+        {"module": "MC_Cond",
+         "constants": {"MaxLen": q(tier, 3, 4), "EmitRejLen": q(tier, 3, 4), "Wide": "TRUE", "Dev": DEV_COND},
+         "invariants": ["PrattIsRef", "RoundTrip", "Emit"],
+         "forms": ["accepted", "rejected"], "workers": 8,
+         "plan": {"tri": False, "sws": "ALL", "adv": True, "validate": True}},
+    ],
+    "gens": lambda tier: [{"topic": "adv", "n": q(tier, 150, 3000)}],
+    "rules": ["load_outcome", "load_panic", "opt_panic", "match_panic", "validate_panic", "ser_panic"],
+    "chunk": 100,
+}
+MANIFEST_TEXT["C03"] = {"level": "todo", "note": "todo", "technique": "TLA+ condition grammar model (MC_Cond) + TauRule; replay with adversarial documents; TLC trace validation"}
+
+PROPS["C12"] = {
+    "title": "Loading, optimising and matching are deterministic and pure",
+    "models": lambda tier: [],
+    "gens": lambda tier: [{"topic": "pure", "n": q(tier, 400, 8000)}],
+    "rules": ["den", "print_differs", "opt_panic", "match_panic"],
+    "chunk": 300,
+}
+MANIFEST_TEXT["C12"] = {"level": "todo", "note": "todo", "technique": "TLA+ life-cycle spec; repeated/threaded traces validated by TLC"}
+
+PROPS["C13"] = {
+    "title": "validate() agrees with matches() on the rule's own examples",
+    "models": lambda tier: [],
+    "gens": lambda tier: [{"topic": "val", "n": q(tier, 800, 15000)}],
+    "rules": ["validate", "validate_panic", "validate_unbound"],
+    "chunk": 500,
+}
+MANIFEST_TEXT["C13"] = {"level": "todo", "note": "todo", "technique": "TLA+ Validate action defined from the bound denotation; TLC trace validation"}
+
+PROPS["C14"] = {
+    "title": "Rule serialisation round-trips",
+    "models": lambda tier: [],
+    "gens": lambda tier: [{"topic": "ser", "n": q(tier, 600, 12000)}],
+    "rules": ["den", "ser_panic", "ser_error", "reload_fails", "reload_differs", "load_paths_differ", "load_panic"],
+    "chunk": 400,
+}
+MANIFEST_TEXT["C14"] = {"level": "todo", "note": "todo", "technique": "TLA+ Serialise/Reload actions; TLC trace validation"}
+
+PROPS["C11"] = {
+    "title": "Verdict is independent of how the document is represented",
+    "models": lambda tier: [],
+    "gens": lambda tier: [{"topic": "repr", "n": q(tier, 600, 12000)}],
+    "rules": ["den", "match_panic"],
+    "chunk": 300,
+}
+MANIFEST_TEXT["C11"] = {"level": "todo", "note": "todo", "technique": "TLA+ life-cycle spec: one denotation per (rule, abstract document); TLC trace validation over 8 representations"}
